@@ -54,11 +54,16 @@ def _is_3d_rotobj(self):
 
 
 def _judge_matrix(self, result, what):
+    if not _is_3d_rotobj(self):
+        return True
+    return judge_points(np.asarray(self.my_array, dtype=float), result, what, holder=self)
+
+
+def judge_points(P, result, what, holder=None):
+    """judge one matrix of a direction grid with points P (N,3), whatever class produced it"""
     mon = f"C03.{what}"
+    self = holder
     try:
-        if not _is_3d_rotobj(self):
-            return True
-        P = np.asarray(self.my_array, dtype=float)
         N = len(P)
         if not np.allclose(np.linalg.norm(P, axis=1), 1.0, atol=1e-9):
             REC.skip(mon, "not a unit sphere")
@@ -98,12 +103,13 @@ def _judge_matrix(self, result, what):
             if namb:
                 REC.notes["C03 ambiguous arcs (1e-10..1e-5)"] += namb
             # one common pattern across the triple of one object
-            pat = getattr(self, "_verif_pattern", None)
+            pat = getattr(self, "_verif_pattern", None) if self is not None else None
             cur = hashlib.md5(np.packbits(stored).tobytes()).hexdigest()
             if pat is not None and pat != cur:
                 problems.append("pattern differs from another getter of the same object")
             try:
-                self._verif_pattern = cur
+                if self is not None:
+                    self._verif_pattern = cur
             except Exception:
                 pass
         if problems:
@@ -128,11 +134,14 @@ def distances_are_great_circle_angles(self, result):
 
 
 def areas_are_cell_areas(self, approx, result):
+    if not _is_3d_rotobj(self) or approx:
+        return True
+    return judge_areas(np.asarray(self.my_array, dtype=float), result)
+
+
+def judge_areas(P, result):
     mon = "C03.areas"
     try:
-        if not _is_3d_rotobj(self) or approx:
-            return True
-        P = np.asarray(self.my_array, dtype=float)
         o = oracle_for(P)
         a = np.asarray(result, dtype=float)
         problems = []
